@@ -40,7 +40,7 @@ def targets(tier):
     k = 1 if tier == "quick" else 10
     t = {"permuted_runs_compared": 400 * k, "batches_compared": 6000 * k, "nndvi_unequal_size_pairs": 200 * k}
     for name in DETS:
-        t["histories_with_drift:" + name] = 20 * k
+        t["histories_with_drift:" + name] = 12 * k
     t["db3_full_traces"] = 15 * k
     return t
 
@@ -153,7 +153,7 @@ def run_case(case, ctx):
         # readings on a decimal grid around zero: exact distance ties between neighbours, sums that are inexact in binary
         g_ = float(rng.choice([0.1, 0.1, 0.5]))
         cand = [np.round(b / g_) * g_ for b in batches]
-        if len(np.unique(np.vstack(cand[:2]), axis=0)) >= 8:
+        if all(len(np.unique(c_, axis=0)) >= params["k_nn"] + 1 for c_ in cand):  # every possible pool has more points than neighbours
             batches = cand
             ctx.count("nndvi_histories_on_a_decimal_grid")
     if name != "NNDVI" and not as_frames and rng.random() < 0.15:
